@@ -175,6 +175,9 @@ func crashResult(report string) Result {
 	if len(stack) > 6000 {
 		stack = stack[:6000]
 	}
+	if strings.HasPrefix(msg, "fatal error: ") {
+		r.Phase = "fatal"
+	}
 	r.Msg = msg
 	r.Stack = stack
 	r.Sig = panicSignature(msg, stack)
